@@ -1,6 +1,6 @@
 (* C19 — order validation accepts a point only if it is newer than all accepted before. *)
 From CRNG Require Import Base.ListX Base.Bytes Lib.Fnv Lib.Regex Model.Fields Model.Validate Model.Matcher Model.Table
-  Proofs.TableProofs Proofs.OrderedProofs.
+  Proofs.TableProofs Proofs.OrderedProofs Check.Common Check.TableCheck Check.C19check Proofs.OrderedConc.
 
 (* For every history of calls (= every linearisation: the real step runs entirely
    under one global mutex) over a set of names on which FNV-1a-64 does not collide,
@@ -46,3 +46,17 @@ Print Assumptions C19_leading_dot.
 Example C19_nonvacuous :
   orun [] [([97], 5); ([97], 5); ([97], 7); ([98], 0); ([97], 6); ([98], 1)] = [true; false; true; false; false; true].
 Proof. vm_compute. reflexivity. Qed.
+
+(* Concurrency.  The locked section of validate.Ordered runs atomically; model: the calls of all dispatchers
+   run in some global order sigma (any interleaving of any number of threads, names and timestamps), each
+   accepted iff its timestamp exceeds everything accepted before for its name.  The histories the threads
+   observe (thread by thread, in program order) pass, call by call, every condition that the acceptor hist_ok
+   of the correspondence check tests — so the acceptor never rejects a run of correct code, whatever the
+   schedule.  (Its remaining clause compares the out-of-order counter with the number of rejected calls.) *)
+Theorem C19_acceptor_sound_for_every_interleaving :
+  forall (sigma : list gev) (T : nat),
+    (forall e, In e sigma -> (fst e < T)%nat) ->
+    let h := history (annot sigma [] (fun _ => O)) T in
+    forallb (call_ok (coords h)) (coords h) = true.
+Proof. exact hist_ok_accepts_every_interleaving. Qed.
+Print Assumptions C19_acceptor_sound_for_every_interleaving.
